@@ -850,6 +850,177 @@ def gen_fromvalue(lines):
 GENERATORS.append(("FromValue", gen_fromvalue))
 
 
+# ------------------------------------------------------------------ value/index.rs, Value::take (C18)
+def value_code(expr):
+    """constructor code of a simple `Value` expression (see Model.ValueIndex.valueOfCode)"""
+    e = re.sub(r"\s+", "", expr or "")
+    return {"Value::Null": 0, "Value::Bool(false)": 1, "Value::Bool(true)": 2}.get(e)
+
+
+def gen_index(lines):
+    t = src("value/index.rs")
+    m = re.search(r"impl<I>\s+ops::Index<I>\s+for\s+Value\b.*?fn index\(&self, index: I\) -> &Value\s*\{(.*?)\n    \}", t, re.S)
+    body = m.group(1) if m else ""
+    st = re.search(r"static\s+(\w+)\s*:\s*Value\s*=\s*([^;]+);", body)
+    use = re.search(r"index\.index_into\(self\)\.unwrap_or\(&(\w+)\)", body)
+    code = value_code(st.group(2)) if st and use and use.group(1) == st.group(1) else None
+    if code is None: miss("index.miss", "`static NULL: Value = Value::Null; index.index_into(self).unwrap_or(&NULL)` not found in ops::Index::index")
+    lines.append("/-- what `&value[probe]` yields on a miss (`static NULL` of `ops::Index::index`), as a constructor code -/")
+    lines.append("def indexMissCode : Nat := %d" % (255 if code is None else code))
+    blk = fn_body(t, r"impl Index for str\s*\{") or ""
+    body = fn_body(blk, r"fn index_or_insert<'v>\([^{]*\{") or ""
+    flat = re.sub(r"\s+", " ", body)
+    nb = re.search(r"if let Value::Null = v \{ \*v = Value::Object\(Map::new\(\)\); \}", flat)
+    oi = re.search(r"Value::Object\(map\) => map\.entry\(self\.to_owned\(\)\)\.or_insert\(([^)]*(?:\([^)]*\))?)\)", flat)
+    if not oi: miss("index.or_insert", "`Value::Object(map) => map.entry(self.to_owned()).or_insert(Value::Null)` not found in `impl Index for str`")
+    code = value_code(oi.group(1)) if oi else None
+    if oi and code is None: miss("index.or_insert_value", "or_insert argument `%s` is not a simple Value constructor" % oi.group(1))
+    lines.append("/-- `impl Index for str`, `index_or_insert`: is `Null` first replaced by an empty object? -/")
+    lines.append("def nullBecomesObject : Bool := %s" % ("true" if nb else "false"))
+    lines.append("/-- … and the value `or_insert` gives a vacant entry, as a constructor code -/")
+    lines.append("def orInsertCode : Nat := %d" % (255 if code is None else code))
+    tm = src("value/mod.rs")
+    body = fn_body(tm, r"pub fn take\(&mut self\) -> Value\s*\{") or ""
+    rp = re.search(r"mem::replace\(\s*self\s*,\s*(.*?)\s*\)\s*\}?\s*$", re.sub(r"\s+", " ", body).strip())
+    code = value_code(rp.group(1)) if rp else None
+    if code is None: miss("index.take", "`mem::replace(self, <simple Value constructor>)` not found in Value::take")
+    lines.append("/-- what `Value::take` leaves behind (second argument of `mem::replace`), as a constructor code -/")
+    lines.append("def takeReplacementCode : Nat := %d" % (255 if code is None else code))
+
+
+GENERATORS.append(("Index", gen_index))
+
+
+# ------------------------------------------------------------------ value/partial_eq.rs (C18)
+def gen_partial_eq(lines):
+    t = src("value/partial_eq.rs")
+    fns = []
+    for m in re.finditer(r"fn (eq_\w+)\(value: &Value, other: ([^)]+)\) -> bool\s*\{", t):
+        body = fn_body(t[m.start():], r"fn eq_\w+\([^{]*\{") or ""
+        acc = re.search(r"\b(\w+)\.(as_\w+)\(\)\s*==\s*Some\(other\)", body)
+        if not acc: miss("partial_eq." + m.group(1), "`<recv>.as_*() == Some(other)` not found"); continue
+        fns.append((m.group(1), m.group(2).strip().lstrip("&"), acc.group(2)))
+    if not fns: miss("partial_eq.fns", "no `fn eq_*(value: &Value, other: T) -> bool` found")
+    inv = re.search(r"partialeq_numeric!\s*\{(.*?)\n\}", t, re.S)
+    rows = re.findall(r"(\w+)\s*\[([^\]]*)\]", inv.group(1)) if inv else []
+    if not rows: miss("partial_eq.table", "invocation `partialeq_numeric! { eq_x[ty ...] ... }` not found")
+    mac = re.search(r"macro_rules!\s+partialeq_numeric\s*\{.*?\n\}", t, re.S)
+    calls = re.findall(r"\$eq\(([^;{}]*)\)\s*\}", re.sub(r"\s+", " ", mac.group(0))) if mac else []
+    casts = [bool(re.fullmatch(r"\*?\*?\w+, \*\w+ as _", c.strip())) for c in calls]
+    if not calls or not all(casts): miss("partial_eq.cast", "the impls of partialeq_numeric! no longer all call `$eq(x, *y as _)`")
+    tys = [ty for _, r in rows for ty in r.split()]
+    fnames = [f for f, _, _ in fns]
+    for f, _ in rows:
+        if f not in fnames: miss("partial_eq.row." + f, "row names an unknown comparison function"); fnames.append(f)
+    params = sorted({p for _, p, _ in fns}) or ["i64"]
+    accs = sorted({a for _, _, a in fns}) or ["as_i64"]
+    lines.append("/-- every Rust type named in the `partialeq_numeric!` invocation, in source order -/")
+    lines.append("inductive PrimTy where")
+    for ty in tys or ["i64"]: lines.append("  | " + ty)
+    lines.append("deriving DecidableEq, Repr")
+    lines.append("")
+    lines.append("/-- the comparison functions `fn eq_*(value: &Value, other: T) -> bool` -/")
+    lines.append("inductive EqFn where")
+    for f in fnames or ["eq_i64"]: lines.append("  | " + f)
+    lines.append("deriving DecidableEq, Repr")
+    lines.append("")
+    lines.append("/-- the type of their second parameter -/")
+    lines.append("inductive EqParam where")
+    for p in params: lines.append("  | " + p)
+    lines.append("deriving DecidableEq, Repr")
+    lines.append("")
+    lines.append("/-- the accessor in `<recv>.as_*() == Some(other)` -/")
+    lines.append("inductive EqAccessor where")
+    for a in accs: lines.append("  | " + a)
+    lines.append("deriving DecidableEq, Repr")
+    lines.append("")
+    lines.append("/-- `partialeq_numeric! { eq_x[ty ...] ... }`: the row of each type -/")
+    lines.append("def eqFnOf : PrimTy → EqFn")
+    for f, r in rows:
+        for ty in r.split(): lines.append("  | .%s => .%s" % (ty, f))
+    lines.append("")
+    lines.append("def eqFnParam : EqFn → EqParam")
+    d = {f: (p, a) for f, p, a in fns}
+    for f in fnames: lines.append("  | .%s => .%s" % (f, d.get(f, (params[0], accs[0]))[0]))
+    lines.append("")
+    lines.append("def eqFnAccessor : EqFn → EqAccessor")
+    for f in fnames: lines.append("  | .%s => .%s" % (f, d.get(f, (params[0], accs[0]))[1]))
+    lines.append("")
+    lines.append("/-- every impl generated by the macro passes the comparand as `*other as _` (a cast to the parameter type) -/")
+    lines.append("def eqCastIsAs : Bool := %s" % ("true" if calls and all(casts) else "false"))
+    lines.append("def primTys : List PrimTy := [%s]" % ", ".join("." + ty for ty in tys))
+
+
+GENERATORS.append(("PartialEq", gen_partial_eq))
+
+
+# ------------------------------------------------------------------ macros.rs json_internal! (C18)
+def macro_rules_of(text, name):
+    """[(pattern, body)] of `macro_rules! name { (pat) => {body}; ... }`, comments removed, whitespace normalised"""
+    m = re.search(r"macro_rules!\s+%s\s*\{" % re.escape(name), text)
+    if not m: return None
+    t = re.sub(r"//[^\n]*", "", text[m.end():])
+    close = {"(": ")", "[": "]", "{": "}"}
+
+    def group(i):
+        """t[i] opens a group; index just after its closing delimiter"""
+        stack = [close[t[i]]]; i += 1
+        while stack:
+            c = t[i]
+            if c in close: stack.append(close[c])
+            elif c == stack[-1]: stack.pop()
+            i += 1
+        return i
+
+    rules, i = [], 0
+    while True:
+        while i < len(t) and t[i].isspace(): i += 1
+        if i >= len(t) or t[i] == "}": break
+        if t[i] not in close: return None
+        j = group(i)
+        pat = t[i + 1:j - 1]
+        k = t.index("=>", j) + 2
+        while t[k].isspace(): k += 1
+        e = group(k)
+        body = t[k + 1:e - 1]
+        rules.append((" ".join(pat.split()), " ".join(body.split())))
+        i = e
+        while i < len(t) and (t[i].isspace() or t[i] == ";"): i += 1
+    return rules
+
+
+def lean_str(s):
+    return '"' + s.replace("\\", "\\\\").replace('"', '\\"') + '"'
+
+
+def gen_json_macro(lines):
+    t = src("macros.rs")
+    rules = macro_rules_of(t, "json_internal")
+    if not rules: miss("jsonmacro.rules", "macro_rules! json_internal not found / not parsed"); rules = []
+    lines.append("/-- rule heads (matchers) of `json_internal!`, in source order, whitespace-normalised -/")
+    lines.append("def jsonRules : List String := [")
+    lines.append(",\n".join("  " + lean_str(p) for p, _ in rules))
+    lines.append("]")
+    ins = [b for p, b in rules if p.startswith("@object $object:ident [$($key:tt)+] ($value:expr)") and "json_unexpected" not in b]
+    stmts = [b.split(";")[0].strip() + ";" for b in ins]
+    over = [s == "let _ = $object.insert(($($key)+).into(), $value);" for s in stmts]
+    keep = [bool(re.fullmatch(r"(let _ = )?\$object\.entry\(\(?\$\(\$key\)\+\)?(\.into\(\))?\)\.or_insert\(\$value\);", s)) for s in stmts]
+    if len(stmts) != 2 or not (all(over) or all(keep)):
+        miss("jsonmacro.insert", "the two entry rules `(@object $object:ident [$($key:tt)+] ($value:expr) …)` no longer both start with "
+                                 "`let _ = $object.insert(($($key)+).into(), $value);` (or both with `$object.entry(..).or_insert($value);`)")
+    lines.append("/-- first statement of the two rules that add an entry -/")
+    lines.append("def jsonInsertStmts : List String := [%s]" % ", ".join(lean_str(s) for s in stmts))
+    lines.append("/-- `true`: `Map::insert` (a later duplicate key overwrites); `false`: `entry(..).or_insert(..)` (the first one stays) -/")
+    lines.append("def jsonInsertOverwrites : Bool := %s" % ("true" if stmts and all(over) else "false"))
+    lines.append("/-- the transcribers (right-hand sides) of the same rules, whitespace-normalised -/")
+    lines.append("def jsonRuleBodies : List String := [")
+    lines.append(",\n".join("  " + lean_str(b) for _, b in rules))
+    lines.append("]")
+
+
+GENERATORS.append(("JsonMacro", gen_json_macro))
+
+
 def main():
     os.makedirs(OUT, exist_ok=True)
     for name, fn in GENERATORS:
